@@ -9,7 +9,7 @@ TECH = "deterministic whole-program simulation (std-facade substitution under a 
 CLAIMED = {
     "C18": dict(
         level="exploration", ref="DESIGN.md 5/C18",
-        text="The C06 histories (writes, removes, increments, incremental and reclaiming snapshots, restarts over 1-2 databases) run with NUN_STORAGE_STRATEGY=s3 and s3_patition (1, 3 and 10 partitions, fixed per worker process) against an in-process S3 stub served over a real loopback socket to the real aws-sdk-s3; each restart is compared key by key, version by version and for id/strategy with the state captured when the snapshot completed. Fault sequences per history: the n-th PUT of an object fails once (result must equal the fault-free one), every PUT fails (must be reported by an error log or a failed snapshot, keys must stay pending, and once the store recovers a completed snapshot must restore everything), the first GET fails (restart succeeds or fails loudly). Faults are sampled per history, not enumerated over every request.",
+        text="The C06 histories (writes, removes, increments, incremental and reclaiming snapshots, restarts over 1-2 databases) run with NUN_STORAGE_STRATEGY=s3 and s3_patition (1, 3 and 10 partitions, fixed per worker process) against an in-process S3 stub served over a real loopback socket to the real aws-sdk-s3; each restart is compared key by key, version by version and for id/strategy with the state captured when the snapshot completed. Fault sequences per history: the n-th PUT of an object fails once (result must equal the fault-free one), every PUT fails (must be reported by an error log or a failed snapshot, keys must stay pending, and once the store recovers a completed snapshot must restore everything), the first GET fails (restart succeeds or fails loudly). Faults are sampled per history, not enumerated over every request. Upload faults that outlast the SDK's own retries (first 3-5 PUTs of an object fail) and downloads that always fail are part of the fault sequences.",
         note="aws-sdk-s3/tokio/loopback socket are real and outside the scheduler (each SDK call is one atomic step); the S3 service is a stub; no crash between the PUTs of one snapshot",
         technique=TECH + "restart comparison against the state at the last completed snapshot with request-level upload/download faults in an S3 stub",
     ),
@@ -27,7 +27,7 @@ CLAIMED = {
     ),
     "C20": dict(
         level="exploration", ref="DESIGN.md 5/C20",
-        text="Bodies of 1-6 ';'-separated statements (with trailing ';', blanks and spaces) are sent as one HTTP request to the real http_ops worker loop or as one WebSocket frame; the reference executes the same commands one at a time with a fresh direct session on a mirrored database set: entry i must equal what command i alone produces, counts must match, both database sets must end equal, and the request's session must leave no connection or watcher behind. The statement alphabet includes watch (later writes of the same request notify its own session).",
+        text="Bodies of 1-6 ';'-separated statements (with trailing ';', blanks and spaces) are sent as one HTTP request to the real http_ops worker loop or as one WebSocket frame; the reference executes the same commands one at a time with a fresh direct session on a mirrored database set: entry i must equal what command i alone produces, counts must match, both database sets must end equal, and the request's session must leave no connection or watcher behind. The statement alphabet includes watch (later writes of the same request notify its own session). After the request the published $connections key is read as well as the in-memory counter.",
         note="input/history dominated; tiny_http / ws wire layers are facades; the CLI clause is outside the simulator",
         technique=TECH + "differential oracle (batched request vs one-command-at-a-time reference)",
     ),
@@ -39,7 +39,7 @@ CLAIMED = {
     ),
     "C19": dict(
         level="exploration", ref="DESIGN.md 5/C19",
-        text="1-6 plain and versioned writes (below/at/above the current version, unique values) on a newer-strategy database (and on $admin): sequentially with background snapshots in between, from two concurrent sessions under lock-level interleavings (history linearizable against 'store your value or keep the current one, reply = stored value'), and replicated to 1-2 secondaries; no write may be refused, the reply of the storage API names the stored value, versions never decrease, watchers are notified iff the value changed, replicas hold the primary's values.",
+        text="1-6 plain and versioned writes (below/at/above the current version, unique values) on a newer-strategy database (and on $admin): sequentially with background snapshots in between, from two concurrent sessions under lock-level interleavings (history linearizable against 'store your value or keep the current one, reply = stored value'), and replicated to 1-2 secondaries; no write may be refused, the reply of the storage API names the stored value, versions never decrease, watchers are notified iff the value changed, replicas hold the primary's values. In the concurrent scenario the version announced to a watcher must never exceed the version the key ends with.",
         note="the reply is observed at db_ops::set_key_value (the transports reduce it to ok); replica versions are C04's subject",
         technique=TECH + "linearizability check of concurrent write histories plus sequential oracle and replica comparison",
     ),
@@ -69,7 +69,7 @@ CLAIMED = {
     ),
     "C14": dict(
         level="exploration", ref="DESIGN.md 5/C14",
-        text="On a stable cluster of 2-3 real nodes every client-visible command (incl. an arbiter conflict and its resolve) is issued one at a time on a seeded node; every line crossing an inter-node link is recorded and attributed (forwards, copies per replicated message, acks, secondary-to-secondary traffic), and the cluster must fall silent within a budget far above the bound and stay silent for 2 x the election timeout.",
+        text="On a stable cluster of 2-3 real nodes every client-visible command (incl. an arbiter conflict and its resolve) is issued one at a time on a seeded node; every line crossing an inter-node link is recorded and attributed (forwards, copies per replicated message, acks, secondary-to-secondary traffic), and the cluster must fall silent within a budget far above the bound and stay silent for 2 x the election timeout. The working database uses the none or the newer strategy; one replicated message per client operation (the arbiter conflict/resolve path keeps a constant of three).",
         note="membership/election traffic is not generated here; the arbiter client is a harness stub answering each notice once",
         technique=TECH + "per-operation accounting of every line on the simulated links plus a quiescence check",
     ),
@@ -87,7 +87,7 @@ CLAIMED = {
     ),
     "C17": dict(
         level="exploration", ref="DESIGN.md 5/C17",
-        text="Seeded sequences of connect / use-db (same, other, wrong token, user token) / refused command / disconnect / HTTP request over the three real transports on the simulated wire; a counted observer session per database compares $connections with a counter model at every quiescent point and checks that its watcher saw every change; an interleaved scenario judges the end state of two concurrent sessions. A burst scenario lets 2-4 direct sessions select (and switch) databases at the same instant, checks every counter, then lets all leave at the same instant and checks again.",
+        text="Seeded sequences of connect / use-db (same, other, wrong token, user token) / refused command / disconnect / HTTP request over the three real transports on the simulated wire; a counted observer session per database compares $connections with a counter model at every quiescent point and checks that its watcher saw every change; an interleaved scenario judges the end state of two concurrent sessions. A burst scenario lets 2-4 direct sessions select (and switch) databases at the same instant, checks every counter, then lets all leave at the same instant and checks again. WebSocket sessions may also end with a frame the protocol layer rejects (on_error, then on_close); TCP sessions may leave with notifications of a watched key queued (a close with unread data is a reset).",
         note="compared at quiescent points only; simulated TCP and ws/tiny_http facades",
         technique=TECH + "per-event comparison with a session-counter model through the public surface",
     ),
